@@ -124,6 +124,12 @@ def worker(args):
                         continue
                     seen[o["name"]] = seen.get(o["name"], 0) + 1
                     r = rp.replay(key, o["model"], o)
+                    uf = [l for l in list(rres.log) + list(res.log) if l.startswith("UFUN-ASSUMED")]
+                    if r.get("reproduced") is False and uf:
+                        # the native state cannot be made to agree with the model on values the proof takes from an
+                        # uninterpreted function (assumed contract), so "did not reproduce" says nothing here
+                        r["reproduced"] = None
+                        r["detail"] = (r.get("detail", "") + " -- inconclusive: " + uf[0])[:600]
                     out["refutations"].append({"bound": K, "obligation": o["name"], "kind": o["kind"], "label": o["label"],
                                                "path": o["path"], "model": o["model"], "replay": r})
                     if r.get("reproduced"):
@@ -333,8 +339,9 @@ def report(prop, tier, seed, results, known, assumed, t0, verbose):
         "wall_s": wall,
         "violations": len(violations),
     }
-    os.makedirs(os.path.join(ROOT, "evidence"), exist_ok=True)
-    json.dump(evid, open(os.path.join(ROOT, "evidence", f"{prop}.json"), "w"), indent=1, default=str)
+    edir = os.environ.get("PYVC_EVIDENCE_DIR") or os.path.join(ROOT, "evidence")  # dev tools redirect it for seeded runs
+    os.makedirs(edir, exist_ok=True)
+    json.dump(evid, open(os.path.join(edir, f"{prop}.json"), "w"), indent=1, default=str)
     print(f"{prop}: {len(fucs)} functions under contract, {n_obl} obligations, {n_dis} discharged, "
           f"{len(violations)} refuted, {len(undecided)} undecided, {len(errors)} errors, {wall}s")
     if violations:
